@@ -275,7 +275,10 @@ where
 {
     match (a, b) {
         (Val::Float(x), Val::Float(y)) => Val::Float(x.powf(y)),
-        (Val::Float(x), Val::Int(y)) => Val::Float(x.powi(y.to_i32().unwrap())),
+        (Val::Float(x), Val::Int(y)) => match y.to_i32() {
+            Some(exponent) => Val::Float(x.powi(exponent)),
+            None => Val::Error(exerr!("cannot convert {:?} to exponent of a float", y)),
+        },
         (Val::Int(x), Val::Int(y)) => match y.to_usize() {
             Some(exponent_) => match num::checked_pow(x, exponent_) {
                 Some(res) => Val::Int(res),
@@ -368,8 +371,10 @@ macro_rules! single_type_arith {
     };
 }
 
-single_type_arith!(rem, Int, |a, b| if b == I::zero() {
+single_type_arith!(rem, Int, |a: I, b: I| if b == I::zero() {
     Val::Error(ExError::new("% by zero"))
+} else if a.checked_div(&b).is_none() {
+    Val::Error(exerr!("overflow in {:?}%{:?}", a, b))
 } else {
     Val::Int(a % b)
 });
@@ -485,7 +490,6 @@ macro_rules! unary_name {
     }
 }
 
-unary_name!(abs, Float, Int);
 unary_name!(signum, Float, Int);
 unary_name!(sin, Float);
 unary_name!(round, Float);
@@ -542,9 +546,33 @@ unary_op!(
     )
 );
 
+fn checked_neg<I, F>(a: I) -> Val<I, F>
+where
+    I: DataType + PrimInt + Signed,
+    F: DataType + Float,
+{
+    match I::zero().checked_sub(&a) {
+        Some(res) => Val::Int(res),
+        None => Val::Error(exerr!("overflow in -{:?}", a)),
+    }
+}
+
+unary_op!(
+    abs,
+    (
+        |a: I| if a < I::zero() {
+            checked_neg(a)
+        } else {
+            Val::Int(a)
+        },
+        Int
+    ),
+    (|a: F| Val::Float(a.abs()), Float)
+);
+
 unary_op!(
     minus,
-    (|a: I| Val::Int(-a), Int),
+    (|a: I| checked_neg(a), Int),
     (|a: F| Val::Float(-a), Float),
     (
         |a: ArrayType<F>| Val::Array(a.iter().map(|ai| -(*ai)).collect()),
@@ -563,7 +591,10 @@ macro_rules! cast {
         {
             match v {
                 Val::$variant(x) => Val::$variant(x),
-                Val::$other_variant(x) => Val::$variant($T::from(x).unwrap()),
+                Val::$other_variant(x) => match $T::from(x) {
+                    Some(converted) => Val::$variant(converted),
+                    None => Val::Error(exerr!("cannot convert '{:?}'", x)),
+                },
                 Val::Bool(x) => Val::$variant(if x { $T::one() } else { $T::zero() }),
                 _ => Val::Error(exerr!("cannot convert '{:?}' to float", v)),
             }
